@@ -691,6 +691,15 @@ fn worker_loop() {
 }
 
 fn main() {
+  // a worker whose driver has gone away must not keep spinning inside a job that never ends
+  let parent = unsafe { libc::getppid() };
+  std::thread::spawn(move || loop {
+    std::thread::sleep(std::time::Duration::from_secs(2));
+    if unsafe { libc::getppid() } != parent {
+      std::process::exit(3);
+    }
+  });
+
   // the interpreter, the collector's mark phase and the compiler all recurse on the native stack
   let handle = std::thread::Builder::new()
     .stack_size(1 << 30)
